@@ -53,12 +53,14 @@ def main():
                 try:
                     pl = json.load(open(os.path.join(VERIF, replay)))
                     info["replay"] = {k: pl.get(k) for k in ("kind", "oracle", "input", "required") if k in pl}
+                    if isinstance(info["replay"].get("input"), dict):
+                        info["replay"]["input"] = {k: (v if len(json.dumps(v)) < 1500 else "<%d bytes omitted>" % len(json.dumps(v))) for k, v in info["replay"]["input"].items()}
                 except Exception:
                     pass
             res["checks"][p] = info
     finally:
         sh(f"git -C {REPO} reset -q --hard HEAD; git -C {REPO} clean -fdq src")
-    print(json.dumps(res, indent=1, ensure_ascii=True, default=str)[:6000])
+    print(json.dumps(res, indent=1, ensure_ascii=True, default=str))
     return 0
 
 
